@@ -53,8 +53,19 @@ def main():
         for tc in ET.parse(x).iter("testcase"):
           if not any(c.tag in ("failure", "error", "skipped") for c in tc):
             passed.add(f"{tc.get('classname')}::{tc.get('name')}")
-        res["baseline_tests_now_failing"] = sorted(base - passed)[:10]
-        res["tests_ok"] = not (base - passed)
+        missing = base - passed
+        if missing:
+          # some rtlir/example tests are flaky under xdist: re-run the affected files serially
+          files = sorted({m.split("::")[0].replace(".", "/") + ".py" for m in missing})
+          x2 = os.path.join(d, "t2.xml")
+          subprocess.run(f"cd {repo} && /venv/bin/python -m pytest -q -p no:cacheprovider --timeout=900 "
+                         f"--junitxml={x2} {' '.join(files)} > {d}/t2.log 2>&1", shell=True, env=env)
+          for tc in ET.parse(x2).iter("testcase"):
+            if not any(c.tag in ("failure", "error", "skipped") for c in tc):
+              passed.add(f"{tc.get('classname')}::{tc.get('name')}")
+          missing = base - passed
+        res["baseline_tests_now_failing"] = sorted(missing)[:10]
+        res["tests_ok"] = not missing
       except Exception as ex:
         res["tests_ok"] = False; res["tests_error"] = str(ex)
     checks = {}
